@@ -859,6 +859,12 @@ class TorControlProtocol(LineOnlyReceiver):
         :param cookie: Path to the cookie file
         """
         self._cookie_data = None
+        # Tor escapes the *bytes* of the file name in COOKIEFILE; after
+        # unescaping, every character stands for one of those bytes
+        try:
+            cookiefile = cookiefile.encode('latin-1')
+        except UnicodeEncodeError:
+            pass
         self._cookie_data = open(cookiefile, 'rb').read()
         if len(self._cookie_data) != 32:
             raise RuntimeError(
